@@ -86,6 +86,8 @@ pub struct SeederCfg {
     pub late_haves: Vec<(u64, usize)>,
     /// choke-state messages at fixed times after connecting: (ms, action)
     pub timed: Vec<(u64, ChokeAct)>,
+    /// after serving this many blocks: keep the connection open but never send anything again
+    pub silent_after_blocks: Option<u64>,
 }
 
 impl SeederCfg {
@@ -106,6 +108,7 @@ impl SeederCfg {
             serve_while_choking: false,
             late_haves: vec![],
             timed: vec![],
+            silent_after_blocks: None,
         }
     }
 }
@@ -184,6 +187,12 @@ async fn seeder_task(cfg: SeederCfg, mut io: PeerIo) {
     // outstanding requests per piece, to know which block completes a piece
     let mut got_blocks: std::collections::HashMap<u32, std::collections::HashSet<u32>> = Default::default();
     loop {
+        if let Some(k) = cfg.silent_after_blocks {
+            if served >= k {
+                io.log.note(&io.addr, "falls silent (connection stays open)");
+                loop { if io.recv().await.is_none() { return; } }
+            }
+        }
         let now = io.log.now_ms();
         if let Some(Disc::AtMs(ms)) = cfg.disc { if now >= start + ms { io.close(); return; } }
         // run due actions (in due order)
